@@ -57,6 +57,9 @@ def configs(tier):
         cfgs.append(dict(group='size_sweep', sizes=sizes[chunk:chunk + 12], _cost=50))
     for kind in ('interval', 'geometric', 'uniform'):
         cfgs.append(dict(group='bmc', kind=kind, k=2, n=4, targets=True, np_int=True, _cost=50))
+    for kind in KINDS:
+        # the stream hands over the SAME dict object several times, and one observation has no label (y=None)
+        cfgs.append(dict(group='repeated_objects', kind=kind, k=1 if kind == 'sequence' else 2, _cost=100))
     cfgs.append(dict(group='bmc', kind='geometric', k=2, n=5, targets=True, p='sym', _cost=100))
     cfgs.append(dict(group='bmc', kind='geometric', k=2, n=5, targets=True, p='one', _cost=100))
     return cfgs
@@ -216,3 +219,51 @@ def _size_sweep(env, cfg):
                 and ys == exp
             env.claim('capacity_respected_at_every_size', ok, detail=f"{kind} size {k}: len {len(st)}, stored arrivals "
                                                                     f"{[next((i for i, a in enumerate(arrived) if a[0] is x_), -1) for x_ in xs][:6]}...")
+
+
+def _repeated_objects(env, cfg):
+    """a stream is a multiset: the same dict OBJECT may arrive several times (a caller re-using one buffer for equal
+    observations) and an observation may come without a label (y=None, the default of update).  Every arrival counts; the stored
+    (instance, target) pairs are pairs that arrived together, each arrival at most once."""
+    kind, k = cfg['kind'], cfg['k']
+    if kind == 'batch':
+        st = BatchStorage(store_targets=True)
+    elif kind == 'interval':
+        st = IntervalStorage(size=k, store_targets=True)
+    elif kind == 'sequence':
+        st = SequenceStorage(store_targets=True)
+    elif kind == 'uniform':
+        st = guarded(env, 'ctor', UniformReservoirStorage, size=k, store_targets=True)
+    else:
+        st = GeometricReservoirStorage(size=k, store_targets=True, constant_probability=1.0)
+    a, b = sym_row(env, NAMES, 'a'), sym_row(env, NAMES, 'b')
+    stream = [(a, env.real('y0')), (a, None), (b, env.real('y2')), (a, env.real('y3')), (a, env.real('y4'))]
+    cap = None if kind == 'batch' else (1 if kind == 'sequence' else k)
+    for t, (x, y) in enumerate(stream):
+        if y is None:
+            guarded(env, 'update', st.update, x)            # the documented default: no label
+        else:
+            guarded(env, 'update', st.update, x, y)
+        xs, ys = _content(st)
+        expect = t + 1 if cap is None else min(t + 1, cap)
+        env.claim(f"every_arrival_counts_n{t + 1}", len(st) == expect and len(xs) == expect and len(ys) == expect,
+                  detail=f"{kind}: {len(xs)} instances / {len(ys)} targets after {t + 1} arrivals")
+        if len(xs) != expect or len(ys) != expect:
+            return
+        idx = []
+        for sx, sy in zip(xs, ys):
+            hits = [i for i in range(t + 1) if stream[i][0] is sx and (stream[i][1] is sy or same_term(stream[i][1], sy))]
+            idx.append(hits[0] if len(hits) == 1 else None)
+        env.claim(f"stored_pairs_arrived_together_n{t + 1}", all(i is not None for i in idx) and len(set(idx)) == len(idx),
+                  detail=f"{kind}: stored pairs map to arrivals {idx}")
+        if None in idx:
+            return
+        if kind == 'batch':
+            env.claim(f"whole_stream_in_order_n{t + 1}", idx == list(range(t + 1)))
+        elif kind in ('interval', 'sequence'):
+            env.claim(f"last_k_in_order_n{t + 1}", idx == list(range(t + 1))[-cap:])
+        elif kind == 'geometric':
+            env.claim(f"p_one_always_stores_newest_n{t + 1}", t in idx)
+
+
+META['explanation'] += ' repeated_objects: streams that hand over the same dict object several times and contain an unlabelled observation.'
